@@ -18,7 +18,7 @@ TRUSTED = [
     "derive(PartialEq) compares every field; [u8; N] == [u8; N] compares every byte",
 ]
 NOT_DECIDED = ["that a changed hash input changes the SHA-1 output", "that a different password yields a different verifier"]
-FLOORS = {"binding": 5, "gate": 2, "whole-value": 2, "operands": 2, "error-content": 2, "who-may-construct": 2, "transcript": 2, "ok-content": 2}
+FLOORS = {"binding": 5, "gate": 2, "whole-value": 2, "operands": 2, "error-content": 2, "who-may-construct": 2, "transcript": 2, "ok-content": 2, "credential-identity": 6}
 
 
 def applicable(feats):
@@ -98,6 +98,13 @@ def check(ctx, rep):
     # "determined by the stored verifier, salt and username and the two public keys" / "another
     # password or username is refused": necessary that x, v, M1 and M2 take ALL of each of
     # these inputs - the transcript and formula obligations C03 decides for those functions
+    # "another password or username is refused" also needs the credential text itself to survive
+    # normalisation: two credentials that differ otherwise than in letter case must not become
+    # the same NormalizedString.  Necessary for that (decided by C13's rules, re-filed here):
+    # no constructor truncates (length gate before the copy, in every constructor), byte k of the
+    # stored text is the upper case of character k, nobody else builds the type.
+    from rules import c13, c01
+    c13.check(ctx, c01.rep_select(rep, "credential-identity", {"length-gate", "normal-form", "constructors", "who-may-construct"}))
     from rules import c03
     binding = ("srp_internal::calculate_x", "srp_internal::calculate_password_verifier", "srp_internal::calculate_client_proof", "srp_internal_client::calculate_client_proof_with_custom_value", "srp_internal::calculate_server_proof")
     rf = util.Refile(rep, "binding", {"transcript", "formula"}, lambda fn: fn in binding)
@@ -168,7 +175,10 @@ def check(ctx, rep):
 
     # ---------------- who may construct (A4a)
     for adt, allowed in (("server::SrpServer", {"server::SrpProof::into_server"}), ("client::SrpClient", {"client::SrpClientChallenge::verify_server_proof"})):
-        sites = util.aggregates(fb, adt)
+        # a helper extracted from the verified function and spliced back into every caller is
+        # judged there (the gate rule sees the construction in the caller's graph)
+        absorbed = fb.absorbed()
+        sites = [x for x in util.aggregates(fb, adt) if x[0].path not in absorbed]
         bad = [b.path for b, _, _, _ in sites if b.path not in allowed]
         rep.check(bool(sites) and not bad, "who-may-construct", adt, "aggregate", "%d construction site(s), all in %s" % (len(sites), sorted(allowed)), "%s is constructed outside the verified path: %s" % (adt, bad))
         # fields private, no Default / From impl
@@ -181,7 +191,7 @@ def check(ctx, rep):
         makers = []
         for b in fb.bodies.values():
             if b.kind in ("Fn", "AssocFn") and not b.derived() and "output" in b.d:
-                if util.type_mentions(fb, fb.ty(b.d["output"]), adt):
+                if util.type_mentions(fb, fb.ty(b.d["output"]), adt) and b.path not in absorbed:
                     makers.append(b.path)
         rep.check(set(makers) <= allowed, "who-may-construct", adt, "returning-functions", "functions returning it: %s" % makers, "other function(s) return %s: %s" % (adt, sorted(set(makers) - allowed)))
 
